@@ -121,6 +121,8 @@ struct ILaws
 	virtual long double digest(int a) = 0;
 	// what the Digester returns for the value itself, computed by the harness (the id's digest must be exactly that)
 	virtual long double expectedDigest(int a) = 0;
+	// an id handed on by copy, by move, as a const rvalue, by assignment or inside a map's value_type stays the same id; "" = yes
+	virtual std::string copiesCoherent(int a) = 0;
 	virtual bool comparableStorage() const = 0;
 	// what the (comparable) storage itself calls equal; the default is "same type and same content"
 	virtual bool storageEqual(int a, int b) const = 0;
@@ -144,6 +146,33 @@ struct Laws : ILaws
 {
 	using Id = eventpp::AnyId<Digester, Storage>;
 	bool eq(int a, int b) override { return makeId<Id>(a) == makeId<Id>(b); }
+	static const char * sameId(const Id & c, const Id & src) {
+		if(! (c == src) || ! (src == c)) return "is not == the original";
+		if(c < src || src < c) return "is ordered before / after the original";
+		if(std::hash<Id>()(c) != std::hash<Id>()(src)) return "hashes differently from the original";
+		if(c.getDigest() != src.getDigest()) return "has another digest than the original";
+		return nullptr;
+	}
+	std::string copiesCoherent(int a) override {
+		const Id src = makeId<Id>(a);
+		const char * w;
+		{ Id c(src); if((w = sameId(c, src))) return std::string("a copy ") + w; }
+		{ Id t(src); Id c(std::move(t)); if((w = sameId(c, src))) return std::string("a moved-to id ") + w; }
+		{ Id c = makeId<Id>(0); c = src; if((w = sameId(c, src))) return std::string("an assigned id ") + w; }
+		{ Id c = makeId<Id>(0); Id t(src); c = std::move(t); if((w = sameId(c, src))) return std::string("a move-assigned id ") + w; }
+		// const rvalues: only for a Storage that could be built from an id at all (with any other Storage a constructor template
+		// that wrongly captured a const rvalue id would not compile, which is not something this check can report)
+		return constRvalues(src, std::integral_constant<bool, std::is_constructible<Storage, const Id &>::value>());
+	}
+	static std::string constRvalues(const Id &, std::false_type) { return std::string(); }
+	static std::string constRvalues(const Id & src, std::true_type) {
+		const char * w;
+		{ const Id t(src); Id c(std::move(t)); if((w = sameId(c, src))) return std::string("an id constructed from a const rvalue ") + w; }
+		{ std::pair<const Id, int> p1(src, 1); std::pair<const Id, int> p2(std::move(p1)); if((w = sameId(p2.first, src))) return std::string("the key of a moved map element (std::pair<const Id, V>) ") + w; }
+		{ std::map<Id, int> m1; m1.insert(std::make_pair(src, 1)); std::map<Id, int> m2(std::make_move_iterator(m1.begin()), std::make_move_iterator(m1.end()));
+			if(m2.find(src) == m2.end()) return "an ordered map filled from moved elements no longer finds the id"; }
+		return std::string();
+	}
 	bool lt(int a, int b) override { return makeId<Id>(a) < makeId<Id>(b); }
 	size_t hash(int a) override { return std::hash<Id>()(makeId<Id>(a)); }
 	long double digest(int a) override { return (long double)makeId<Id>(a).getDigest(); }
@@ -216,6 +245,7 @@ struct Checker
 		const std::string who = nameOf(a) + ", " + nameOf(b);
 		if(! l.eq(a, a)) v.fail("anyid.eq.reflexive", "C18", "== is not reflexive for " + nameOf(a));
 		if(l.digest(a) != l.expectedDigest(a)) v.fail("anyid.digest", "C18", "the digest stored in the id of " + nameOf(a) + " is not what the Digester returns for that value (" + std::to_string(l.digest(a)) + " vs " + std::to_string(l.expectedDigest(a)) + "): ids whose digests collide are no longer equal");
+		{ std::string c = l.copiesCoherent(a); if(! c.empty()) v.fail("anyid.copy", "C18", "for the id of " + nameOf(a) + ": " + c); }
 		if(l.lt(a, a)) v.fail("anyid.lt.irreflexive", "C18", "< is not irreflexive for " + nameOf(a));
 		if(e != e2) v.fail("anyid.eq.symmetric", "C18", "== is not symmetric for " + who);
 		if(lab && lba) v.fail("anyid.lt.asymmetric", "C18", "a<b and b<a both hold for " + who);
